@@ -208,10 +208,9 @@ theorem diff_core {La Lb Ha Hb : Prop} (c1 : Ha ∨ Lb) (c2 : Hb ∨ La) :
   by_cases La <;> by_cases Lb <;> by_cases Ha <;> by_cases Hb <;> simp_all
 
 /-- **range ∖ range is exact** whenever it returns.  `hec`: `allows_higher` agrees with the written upper
-ends; `hnl`: `a`'s two ends are not a version and a local build of it. -/
+ends. -/
 theorem difference_exact (a b : VRange) (ha : a.WF) (hb : b.WF) (hta : a.Tidy) (htb : b.Tidy)
     (hec : EndsConsistent a b)
-    (hnl : ∀ m M, a.min = some m → a.max = some M → m.allows M = false ∧ M.allows m = false)
     (res : VC) (h : RC.rngDifferenceRng a b = .ok res) :
     ∀ p, p.wf = true → Regular (a.bounds ++ b.bounds) p →
       res.allowsPlain p = (a.allows p && !b.allows p) := by
@@ -294,25 +293,11 @@ theorem difference_exact (a b : VRange) (ha : a.WF) (hb : b.WF) (hta : a.Tidy) (
           obtain ⟨ywf, yt, yb, ysem, ysrc⟩ := s2
           simp only at h
           have hgood : Good [x, y] := by
-            refine ⟨?_, ?_⟩
-            · intro c hc
-              simp only [List.mem_cons, List.mem_nil_iff, or_false] at hc
-              rcases hc with rfl | rfl
-              · exact ⟨xwf, xt⟩
-              · exact ⟨ywf, yt⟩
-            · intro u w hu hw huw
-              simp only [List.mem_cons, List.mem_nil_iff, or_false] at hu hw
-              rcases hu with hu | hu <;> rcases hw with hw | hw
-              · have : u = w := by rw [← hu] at hw; cases hw; rfl
-                subst this; exact huw
-              · have h1 := xsrc u hu.symm
-                have h2 := ysrc w hw.symm
-                rw [(hnl u w h1 h2).1] at huw; cases huw
-              · have h1 := ysrc u hu.symm
-                have h2 := xsrc w hw.symm
-                rw [(hnl w u h2 h1).2] at huw; cases huw
-              · have : u = w := by rw [← hu] at hw; cases hw; rfl
-                subst this; exact huw
+            intro c hc
+            simp only [List.mem_cons, List.mem_nil_iff, or_false] at hc
+            rcases hc with rfl | rfl
+            · exact ⟨xwf, xt⟩
+            · exact ⟨ywf, yt⟩
           obtain ⟨_, _, g3⟩ := unionOfFlat_sem [x, y] res h hgood
           have hregxy : Regular (boundsOf [x, y]) p := hreg.mono (by
             intro e he
@@ -354,7 +339,6 @@ theorem verDifference_exact (a : Version) (c : RC) (ha : a.wf = true) (hc : c.WF
 
 /-- the two-member union (`a.union(b)`), whenever it returns -/
 theorem union_exact (x y : RC) (hx : x.WF) (hy : y.WF) (htx : x.Tidy) (hty : y.Tidy)
-    (hloc : ∀ a b, x = ver a → y = ver b → (a.allows b = true ↔ b.allows a = true))
     (res : VC) (h : RC.union x y = .ok res) :
     ∀ p, p.wf = true → Regular (x.bounds ++ y.bounds) p → res.allowsPlain p = (x.allows p || y.allows p) := by
   intro p hp hreg
@@ -367,26 +351,16 @@ theorem union_exact (x y : RC) (hx : x.WF) (hy : y.WF) (htx : x.Tidy) (hty : y.T
     | some u =>
       simp only [pure, Except.pure, Except.ok.injEq] at h
       subst h
-      obtain ⟨_, _, _, hex⟩ := rcUnionSingle_exact x y hx hy htx hty (fun a b ha hb => (hloc a b ha hb).1) u hu
+      obtain ⟨_, _, _, hex⟩ := rcUnionSingle_exact x y hx hy htx hty u hu
       simpa [VC.allowsPlain, VC.flatten] using hex p hp hreg
     | none =>
       simp only at h
       have hgood : Good [x, y] := by
-        refine ⟨?_, ?_⟩
-        · intro c hc
-          simp only [List.mem_cons, List.mem_nil_iff, or_false] at hc
-          rcases hc with rfl | rfl
-          · exact ⟨hx, htx⟩
-          · exact ⟨hy, hty⟩
-        · intro u w hu' hw huw
-          simp only [List.mem_cons, List.mem_nil_iff, or_false] at hu' hw
-          rcases hu' with hu' | hu' <;> rcases hw with hw | hw
-          · have : u = w := by rw [← hu'] at hw; cases hw; rfl
-            subst this; exact huw
-          · exact (hloc u w hu'.symm hw.symm).1 huw
-          · exact (hloc w u hw.symm hu'.symm).2 huw
-          · have : u = w := by rw [← hu'] at hw; cases hw; rfl
-            subst this; exact huw
+        intro c hc
+        simp only [List.mem_cons, List.mem_nil_iff, or_false] at hc
+        rcases hc with rfl | rfl
+        · exact ⟨hx, htx⟩
+        · exact ⟨hy, hty⟩
       obtain ⟨_, _, g3⟩ := unionOfFlat_sem [x, y] res h hgood
       rw [g3 p hp (hreg.mono (by intro e he; simpa [boundsOf] using he))]
       simp [anyAllows]
@@ -475,25 +449,23 @@ theorem rngDifferenceVer_exact (r : VRange) (v : Version) (hr : r.WF) (htr : r.T
           · exact this
           · exact lt_of_le_of_ne this hne
         have hgood : Good [rng ⟨r.min, some v, r.imin, false⟩, rng ⟨some v, r.max, false, r.imax⟩] := by
-          refine ⟨?_, ?_⟩
-          · intro c hc
-            simp only [List.mem_cons, List.mem_nil_iff, or_false] at hc
-            rcases hc with rfl | rfl
-            · refine ⟨⟨?_, ?_⟩, ⟨fun e => htr.1 e, fun e => by simp at e⟩⟩
-              · intro e he
-                simp only [VRange.bounds, List.mem_append, Option.mem_toList] at he
-                rcases he with he | he
-                · exact hr.1 e (VRange.mem_bounds_min he)
-                · simp at he; subst he; exact hv
-              · intro m M hm hM; simp at hM; subst hM; exact hlo m hm
-            · refine ⟨⟨?_, ?_⟩, ⟨fun e => by simp at e, fun e => htr.2 e⟩⟩
-              · intro e he
-                simp only [VRange.bounds, List.mem_append, Option.mem_toList] at he
-                rcases he with he | he
-                · simp at he; subst he; exact hv
-                · exact hr.1 e (VRange.mem_bounds_max he)
-              · intro m M hm hM; simp at hm; subst hm; exact hhi M hM
-          · intro a b ha; simp at ha
+          intro c hc
+          simp only [List.mem_cons, List.mem_nil_iff, or_false] at hc
+          rcases hc with rfl | rfl
+          · refine ⟨⟨?_, ?_⟩, ⟨fun e => htr.1 e, fun e => by simp at e⟩⟩
+            · intro e he
+              simp only [VRange.bounds, List.mem_append, Option.mem_toList] at he
+              rcases he with he | he
+              · exact hr.1 e (VRange.mem_bounds_min he)
+              · simp at he; subst he; exact hv
+            · intro m M hm hM; simp at hM; subst hM; exact hlo m hm
+          · refine ⟨⟨?_, ?_⟩, ⟨fun e => by simp at e, fun e => htr.2 e⟩⟩
+            · intro e he
+              simp only [VRange.bounds, List.mem_append, Option.mem_toList] at he
+              rcases he with he | he
+              · simp at he; subst he; exact hv
+              · exact hr.1 e (VRange.mem_bounds_max he)
+            · intro m M hm hM; simp at hm; subst hm; exact hhi M hM
         obtain ⟨_, _, g3⟩ := unionOfFlat_sem _ res h hgood
         have hregP : Regular (boundsOf [rng ⟨r.min, some v, r.imin, false⟩, rng ⟨some v, r.max, false, r.imax⟩]) p := by
           intro e he
@@ -505,9 +477,9 @@ theorem rngDifferenceVer_exact (r : VRange) (v : Version) (hr : r.WF) (htr : r.T
         rw [g3 p hp hregP]
         apply bool_eq_of_iff
         have w1' : (⟨r.min, some v, r.imin, false⟩ : VRange).WF :=
-          (hgood.1 (rng ⟨r.min, some v, r.imin, false⟩) (by simp)).1
+          (hgood (rng ⟨r.min, some v, r.imin, false⟩) (by simp)).1
         have w2' : (⟨some v, r.max, false, r.imax⟩ : VRange).WF :=
-          (hgood.1 (rng ⟨some v, r.max, false, r.imax⟩) (by simp)).1
+          (hgood (rng ⟨some v, r.max, false, r.imax⟩) (by simp)).1
         have w1 := w1'.1
         have w2 := w2'.1
         simp only [anyAllows, List.any_cons, List.any_nil, Bool.or_false, Bool.or_eq_true, RC.allows]
@@ -570,7 +542,6 @@ namespace RC
 
 /-- **`a.union(b)` for two members is defined and exact** -/
 theorem union_total (x y : RC) (hx : x.WF) (hy : y.WF) (htx : x.Tidy) (hty : y.Tidy)
-    (hloc : ∀ a b, x = ver a → y = ver b → (a.allows b = true ↔ b.allows a = true))
     (hn : NoLocalLower [x, y]) :
     ∃ res, RC.union x y = .ok res ∧
       ∀ p, p.wf = true → Regular (x.bounds ++ y.bounds) p → res.allowsPlain p = (x.allows p || y.allows p) := by
@@ -582,25 +553,15 @@ theorem union_total (x y : RC) (hx : x.WF) (hy : y.WF) (htx : x.Tidy) (hty : y.T
     | some u => exact ⟨_, rfl⟩
     | none =>
       have hgood : Good [x, y] := by
-        refine ⟨?_, ?_⟩
-        · intro c hc
-          simp only [List.mem_cons, List.mem_nil_iff, or_false] at hc
-          rcases hc with rfl | rfl
-          · exact ⟨hx, htx⟩
-          · exact ⟨hy, hty⟩
-        · intro u w hu' hw huw
-          simp only [List.mem_cons, List.mem_nil_iff, or_false] at hu' hw
-          rcases hu' with hu' | hu' <;> rcases hw with hw | hw
-          · have : u = w := by rw [← hu'] at hw; cases hw; rfl
-            subst this; exact huw
-          · exact (hloc u w hu'.symm hw.symm).1 huw
-          · exact (hloc w u hw.symm hu'.symm).2 huw
-          · have : u = w := by rw [← hu'] at hw; cases hw; rfl
-            subst this; exact huw
+        intro c hc
+        simp only [List.mem_cons, List.mem_nil_iff, or_false] at hc
+        rcases hc with rfl | rfl
+        · exact ⟨hx, htx⟩
+        · exact ⟨hy, hty⟩
       obtain ⟨res, hres, _⟩ := unionOfFlat_total [x, y] hgood hn
       exact ⟨res, hres⟩
   obtain ⟨res, hres⟩ := hex
-  exact ⟨res, hres, union_exact x y hx hy htx hty hloc res hres⟩
+  exact ⟨res, hres, union_exact x y hx hy htx hty res hres⟩
 
 end RC
 
@@ -610,7 +571,6 @@ namespace VRange
 `b.max` is a local build) -/
 theorem difference_total (a b : VRange) (ha : a.WF) (hb : b.WF) (hta : a.Tidy) (htb : b.Tidy)
     (hec : EndsConsistent a b)
-    (hnl : ∀ m M, a.min = some m → a.max = some M → m.allows M = false ∧ M.allows m = false)
     (hloc : ∀ m, (a.min = some m ∨ a.max = some m ∨ b.max = some m) → m.isLocal = false) :
     ∃ res, RC.rngDifferenceRng a b = .ok res ∧
       ∀ p, p.wf = true → Regular (a.bounds ++ b.bounds) p → res.allowsPlain p = (a.allows p && !b.allows p) := by
@@ -634,21 +594,11 @@ theorem difference_total (a b : VRange) (ha : a.WF) (hb : b.WF) (hta : a.Tidy) (
           obtain ⟨xwf, xt, xb, xsem, xsrc⟩ := s1
           obtain ⟨ywf, yt, yb, ysem, ysrc⟩ := s2
           have hgood : Good [x, y] := by
-            refine ⟨?_, ?_⟩
-            · intro c hc
-              simp only [List.mem_cons, List.mem_nil_iff, or_false] at hc
-              rcases hc with rfl | rfl
-              · exact ⟨xwf, xt⟩
-              · exact ⟨ywf, yt⟩
-            · intro u w hu hw huw
-              simp only [List.mem_cons, List.mem_nil_iff, or_false] at hu hw
-              rcases hu with hu | hu <;> rcases hw with hw | hw
-              · have : u = w := by rw [← hu] at hw; cases hw; rfl
-                subst this; exact huw
-              · rw [(hnl u w (xsrc u hu.symm) (ysrc w hw.symm)).1] at huw; cases huw
-              · rw [(hnl w u (xsrc w hw.symm) (ysrc u hu.symm)).2] at huw; cases huw
-              · have : u = w := by rw [← hu] at hw; cases hw; rfl
-                subst this; exact huw
+            intro c hc
+            simp only [List.mem_cons, List.mem_nil_iff, or_false] at hc
+            rcases hc with rfl | rfl
+            · exact ⟨xwf, xt⟩
+            · exact ⟨ywf, yt⟩
           -- lower bounds of the pieces: `a.min` resp. `b.max` / `a.max`
           have hx : ∀ m, x.min = some m → a.min = some m := by
             intro m hm
@@ -681,7 +631,7 @@ theorem difference_total (a b : VRange) (ha : a.WF) (hb : b.WF) (hta : a.Tidy) (
           obtain ⟨res, hres, _⟩ := unionOfFlat_total [x, y] hgood hn
           exact ⟨res, hres⟩
   obtain ⟨res, hres⟩ := hex
-  exact ⟨res, hres, difference_exact a b ha hb hta htb hec hnl res hres⟩
+  exact ⟨res, hres, difference_exact a b ha hb hta htb hec res hres⟩
 
 end VRange
 end Poetry
